@@ -110,7 +110,9 @@ partial def mkMediaType (env : Env) (key : String) (j : Json) : Doc :=
     ((match field? j "schema" with | some s => [("schema", mkRef env .schemaRef (mkSchema env) "" s)] | none => []) ++
      mapKids j "examples" "examples" (fun k x => mkRef env .exampleRef mkExample k x) ++
      mapKids j "encoding" "encoding" (fun k x =>
-       .node .encoding { strs := withKey k [], exts := unknownKeys x ["contentType", "headers", "style", "explode", "allowReserved"] }
+       let explode := match x.getObjVal? "explode" with | .ok (.bool b) => [("explode", if b then "true" else "false")] | _ => []
+       .node .encoding { strs := withKey k (strAttrs x ["style"] ++ explode),
+                         exts := unknownKeys x ["contentType", "headers", "style", "explode", "allowReserved"] }
          (mapKids x "headers" "headers" (fun hk h => mkRef env .headerRef (mkParamLike env .header) hk h))))
 partial def mkContent (env : Env) (j : Json) : Doc :=
   .node .content {} ((objKVs j).map (fun kv => ("mediaTypes", mkMediaType env kv.1 kv.2)))
@@ -183,9 +185,15 @@ def mkSecurityScheme (j : Json) : Doc :=
           (["implicit", "password", "clientCredentials", "authorizationCode"].filterMap (fun ft => (field? f ft).map (fun x => (ft, mkFlow ft x)))))]
      | none => [])
 
+/-- all entries of an object, null ones included -/
+def mapKidsN (j : Json) (k pos : String) (f : String → Json → Doc) : List (String × Doc) :=
+  match j.getObjVal? k with | .ok m => (objKVs m).map (fun kv => (pos, f kv.1 kv.2)) | .error _ => []
+
 def mkServer (j : Json) : Doc :=
-  .node .server { strs := strAttrs j ["url"], exts := unknownKeys j ["url", "description", "variables"] }
-    (mapKids j "variables" "variables" (fun k x => leaf .serverVar x ["enum", "default", "description"] ["default"] k))
+  .node .server { strs := strAttrs j ["url"], exts := unknownKeys j ["url", "description", "variables"],
+                  flags := flagIf j.isNull "null" }
+    (mapKidsN j "variables" "variables" (fun k x =>
+      leaf .serverVar x ["enum", "default", "description"] ["default"] k (flagIf x.isNull "null")))
 
 def mkComponents (env : Env) (j : Json) : Doc :=
   .node .components { exts := unknownKeys j componentPositions }
@@ -215,7 +223,7 @@ def mkRoot (env : Env) : Doc :=
      (match field? j "security" with | some _ => [("security", .node .securityReqs {} [])] | none => []) ++
      (match field? j "servers" with | some s => [("servers", .node .servers {} ((asArr s).map (fun x => ("items", mkServer x))))] | none => []) ++
      (match field? j "tags" with | some s => [("tags", .node .tags {} ((asArr s).map (fun x => ("items",
-        .node .tag { exts := unknownKeys x ["name", "description", "externalDocs"] }
+        .node .tag { exts := unknownKeys x ["name", "description", "externalDocs"], flags := flagIf x.isNull "null" }
           (match field? x "externalDocs" with | some e => [("externalDocs", mkExternalDocs e)] | none => [])))))] | none => []) ++
      (match field? j "externalDocs" with | some x => [("externalDocs", mkExternalDocs x)] | none => []))
 
@@ -238,10 +246,9 @@ def handle (j : Json) : Json :=
   let s := specVerdict o d
   let excl :=
     (if nodes.any excl7Node then ["ExclTemplateNames"] else []) ++
-    (if nodes.any (fun n => exclHeaderNode o n || exclBelow knownUncovered o n) then ["ExclExtraFieldsUnchecked"] else []) ++
+    (if nodes.any (exclBelow [(.schema, "xml"), (.schema, "discriminator")] o) then ["ExclExtraFieldsUnchecked"] else []) ++
     (if nodes.any (exclInnerNode o) then ["ExclInnerRefSiblings"] else []) ++
-    (if nodes.any (exclExternalNode o) then ["ExclExternalExample"] else []) ++
-    (if nodes.any (exclHeaderExampleNode o) then ["ExclHeaderExample"] else [])
+    (if nodes.any (fun n => exclEncNode codeTable o n || exclBelow [(.encoding, "headers")] o n) then ["ExclEncodingHeaderErrorsDropped"] else [])
   let viols := nodes.flatMap (fun n => (violations n).map (fun v =>
     s!"{v.rule}@{kindName n.kind}" ++ (if enabled o v then "" else ":off")))
   let branches := dedup (viols ++
